@@ -86,6 +86,24 @@ func init() {
 		{ctlGo, "handleSvcEndpointsRemove", "Controller.handleSvcEndpointsRemove"},
 		{ctlGo, "ctlHandleSvcConfigUpdate", "Controller.handleSvcConfigUpdate"},
 	})
+	const reqGo = "proc/redis/request.go"
+	const hdlGo = "proc/redis/handler.go"
+	registerStmts("ScanText", []stmtItem{
+		{reqGo, "newScanRequest", "newScanRequest"},
+		{reqGo, "convert", "scanRequest.Convert"},
+		{hdlGo, "handleScan", "handleScan"},
+	})
+	const hkfGo = "proc/redis/filter_hotkey.go"
+	const cpsGo = "proc/redis/filter_compress.go"
+	registerStmts("Filters", []stmtItem{
+		{hkfGo, "hotKeyDo", "hotKeyFilter.Do"},
+		{hkfGo, "hotKeyExtractKey", "hotKeyFilter.extractKey"},
+		{cpsGo, "compressDo", "compressFilter.Do"},
+		{cpsGo, "compressCompress", "compressFilter.Compress"},
+		{cpsGo, "compressDecompress", "compressFilter.Decompress"},
+		{cpsGo, "compress", "compressFilter.compress"},
+		{cpsGo, "decompress", "compressFilter.decompress"},
+	})
 	const tcpGo = "proc/tcp/proc.go"
 	registerStmts("Relay", []stmtItem{
 		{tcpGo, "handleConn", "tcpProc.HandleConn"},
